@@ -1,6 +1,7 @@
 package chainsim
 
 import (
+	oracletypes "github.com/bandprotocol/chain/v3/x/oracle/types"
 	"fmt"
 	"time"
 
@@ -36,14 +37,14 @@ func (m *C15) OnBlock(e *Env, blk *world.BlockRecord) {
 				e.Fail("C15", "activate_while_active", "", "MsgActivate by %s accepted although the validator was already active", a.Val)
 				return
 			}
-			if a.EverDeact && a.Since.Add(a.PenaltyA).After(a.Now) && a.Since.Add(a.PenaltyB).After(a.Now) {
-				e.Fail("C15", "reactivation_before_penalty_elapsed", "", "MsgActivate by %s accepted at %s; deactivated at %s, penalty %s", a.Val, a.Now.Format(time.RFC3339Nano), a.Since.Format(time.RFC3339Nano), a.PenaltyA)
+			if a.EverDeact && a.TooEarly(a.PenaltyA) && a.TooEarly(a.PenaltyB) {
+				e.Fail("C15", "reactivation_before_penalty_elapsed", "", "MsgActivate by %s accepted at %s; deactivated at %s, penalty %s", a.Val, a.Now.Format(time.RFC3339Nano), a.Since.Format(time.RFC3339Nano), fmtNanos(a.PenaltyA))
 				return
 			}
 			m.nActivations++
 			e.St.Trace("activate-ok")
 		} else {
-			if a.EverDeact && !a.WasActive && a.Since.Add(a.PenaltyA).After(a.Now) {
+			if a.EverDeact && !a.WasActive && a.TooEarly(a.PenaltyA) {
 				m.nEarlyReactivationRejected++
 				e.St.Trace("activate-too-early")
 			} else if !a.WasActive {
@@ -121,7 +122,9 @@ func (m *C15) OnBlock(e *Env, blk *world.BlockRecord) {
 	// deadlines for the conductor: penalty ends, price expiries, grace ends
 	for v, s := range fs.Since {
 		if !fs.Active[v] && fs.EverDeact[v] {
-			e.W.Deadlines = append(e.W.Deadlines, s.Add(time.Duration(fs.OracleParams.InactivePenaltyDuration)))
+			if fs.OracleParams.InactivePenaltyDuration < uint64(1000*time.Hour) {
+				e.W.Deadlines = append(e.W.Deadlines, s.Add(time.Duration(fs.OracleParams.InactivePenaltyDuration)))
+			}
 		}
 	}
 	for _, f := range cf.Feeds {
@@ -142,4 +145,38 @@ func (m *C15) NonTrivial(e *Env) bool {
 	e.St.ProbeN("c15_early_reactivation_rejected", m.nEarlyReactivationRejected)
 	e.St.ProbeN("c15_activations", m.nActivations)
 	return (m.nJustOracle > 0 || m.nJustFeeds > 0) && m.nEarlyReactivationRejected > 0
+}
+
+func fmtNanos(n uint64) string {
+	if n < 1<<62 {
+		return time.Duration(n).String()
+	}
+	return fmt.Sprintf("%d ns", n)
+}
+
+// OraclePenaltyChurn: governance changes the oracle's inactive_penalty_duration while validators are being deactivated and
+// re-activate, including values at the 2^63 / 2^64 boundaries of the unsigned nanosecond count (proposed only when parameter
+// validation accepts them).
+type OraclePenaltyChurn struct{ Rate int }
+
+func (p *OraclePenaltyChurn) OnBlock(e *Env, blk *world.BlockRecord) {}
+func (p *OraclePenaltyChurn) Act(e *Env) {
+	if e.Draining || e.Step < 4 || !e.Ch.Bool("oracle.penaltychurn", p.Rate) {
+		return
+	}
+	gov := getGov(e)
+	if gov == nil {
+		return
+	}
+	np := e.App().OracleKeeper.GetParams(e.Ctx())
+	if e.Ch.Bool("oracle.penaltychurn.edge", 500) {
+		np.InactivePenaltyDuration = []uint64{1<<63 - 1, 1 << 63, 1<<64 - 1, 1 << 62}[e.Ch.Intn("oracle.penaltychurn.edgev", 4)]
+		e.St.Fault("inactive_penalty_duration_set_to_an_edge_value")
+	} else {
+		np.InactivePenaltyDuration = uint64(time.Duration(e.Ch.Range("oracle.penaltychurn.s", 0, 30)) * time.Second)
+		e.St.Fault("inactive_penalty_duration_changed_by_governance")
+	}
+	if np.Validate() == nil {
+		gov.Propose(e, "params_oracle", nil, &oracletypes.MsgUpdateParams{Authority: govAuthority, Params: np})
+	}
 }
